@@ -293,6 +293,22 @@ def run_shard(tier, seed, shard, n, R):
             check_candidate(R, obs, rng, s, "seed")
             if i < 3:
                 R.sample({"origin": "seed", "source": s[:1200]})
+    # every binary operator on every pair of spellable operand types, as an expression statement and as a condition: whatever
+    # the front end accepts of these must lower, link and run (the typing itself is C09's)
+    from ..ref import typing as tspec
+    from ..lang import type_str
+    S = tspec.spellable()
+    k = 0
+    for op in tspec.OPS:
+        for L in S:
+            for Rr in S:
+                k += 1
+                if k % n != shard:
+                    continue
+                ctx = "  a %s b;\n" % op if (k // n) % 2 == 0 else "  int r = 0;\n  if (a %s b) {\n    r = 1;\n  }\n" % op
+                check_candidate(R, obs, rng, "export function f (%s a, %s b) -> void {\n%s}\n" % (type_str(L), type_str(Rr), ctx), "operator-grid")
+                R.count("operator_grid_programs")
+    R.flags["operator_grid_all_spellable_triples"] = True
     for j in range(BUDGET[tier]):
         if j % 25 == 0:
             linked_split(R, obs, random.Random((seed * 1000003 + shard) * 100000 + j), "split")
